@@ -231,5 +231,68 @@ theorem walk {tr : Trie} {key : Path} {S : Node} {n : Nat} (hw : WF S n) :
             | head => exact hs
             | tail _ he => exact h3 e he
 
+/-! ### paths -/
+
+theorem cpre_append_left (pre a b : Path) : cpre (pre ++ a) (pre ++ b) = pre ++ cpre a b := by
+  induction pre with
+  | nil => rfl
+  | cons x xs ih => simp [cpre, ih]
+
+theorem cpre_comm (a b : Path) : cpre a b = cpre b a := by
+  induction a generalizing b with
+  | nil => cases b <;> simp [cpre]
+  | cons x xs ih =>
+    cases b with
+    | nil => simp [cpre]
+    | cons y ys =>
+      by_cases h : x = y
+      · subst h; simp [cpre, ih ys]
+      · have : ¬ y = x := fun e => h e.symm
+        simp [cpre, h, this]
+
+theorem equalMSBs_prefix (pre rest : Path) : equalMSBs (pre ++ rest) pre = true := by
+  unfold equalMSBs
+  by_cases h : (pre ++ rest).length ≤ pre.length
+  · have : rest = [] := by
+      have : rest.length = 0 := by simp at h; omega
+      exact List.length_eq_zero_iff.mp this
+    subst this; simp
+  · simp only [h, if_false]
+    exact List.isPrefixOf_iff_prefix.mpr (List.prefix_append _ _)
+
+theorem stops_prefix (pre rest : Path) (h : rest ≠ []) : stops (pre ++ rest) pre = false := by
+  have hl : ¬ (pre.length ≥ (pre ++ rest).length) := by
+    cases rest with
+    | nil => exact absurd rfl h
+    | cons _ _ => simp
+  have hl' : decide (pre.length ≥ (pre ++ rest).length) = false := by simpa using hl
+  simp only [stops, hl', equalMSBs_prefix]; rfl
+
+theorem isPrefixOf_append_left (pre a b : Path) : (pre ++ a).isPrefixOf (pre ++ b) = a.isPrefixOf b := by
+  induction pre with
+  | nil => rfl
+  | cons x xs ih => simp [List.isPrefixOf, ih]
+
+theorem stops_mismatch (pre p rest : Path) (hlen : p.length ≤ rest.length) (hnp : p.isPrefixOf rest = false) :
+    stops (pre ++ rest) (pre ++ p) = true := by
+  unfold stops equalMSBs
+  by_cases h : (pre ++ p).length ≥ (pre ++ rest).length
+  · have : decide ((pre ++ p).length ≥ (pre ++ rest).length) = true := by simpa using h
+    simp only [this, Bool.true_or]
+  · have h2 : ¬ (pre ++ rest).length ≤ (pre ++ p).length := by omega
+    simp only [h2, if_false, isPrefixOf_append_left, hnp]
+    simp
+
+theorem getD_append_len (pre rest : Path) : (pre ++ rest).getD pre.length false = rest.getD 0 false := by
+  induction pre with
+  | nil => rfl
+  | cons x xs ih => simpa using ih
+
+def secondLast {α : Type} (l : List α) : Option α := l.dropLast.getLast?
+
+def relink (old new : Path) : Shape → Shape
+  | .inner l r => if l = old then .inner new r else .inner l new
+  | sh => sh
+
 end Legacy
 end Juno.C01
